@@ -463,3 +463,204 @@ Proof.
   induction ws as [|c r IH]; [reflexivity|]. cbn [forallb skip_ws]. intro H.
   apply andb_true_iff in H as [H1 H2]. rewrite H1. apply IH. assumption.
 Qed.
+
+(* ------------------------------------------------------------------ *)
+(* one iteration of parse_loop as a function of its own: every iteration
+   consumes at least one byte and pushes at most one frame, hence
+   - the explicit stack is never higher than the input is long,
+   - |s|+1 iterations always suffice: the fuel 2*|s|+4 of parse_json is never
+     the reason for a None (the parser is total without an artificial error). *)
+Inductive pres :=
+| PNext (st : pstate) (stack : list frame) (s : bytes)
+| PDone (r : option (json * bytes)).
+
+Definition pstep (st : pstate) (stack : list frame) (s : bytes) : pres :=
+      match st with
+      | PValue =>
+          match skip_ws s with
+          | [] => PDone None
+          | c :: r =>
+              if c =? 110 then match strip_prefix (s2b "ull") r with Some r' => PNext (PAfter JNull) stack r' | None => PDone None end
+              else if c =? 116 then match strip_prefix (s2b "rue") r with Some r' => PNext (PAfter (JBool true)) stack r' | None => PDone None end
+              else if c =? 102 then match strip_prefix (s2b "alse") r with Some r' => PNext (PAfter (JBool false)) stack r' | None => PDone None end
+              else if c =? 34 then
+                match parse_string r with
+                | Some (ok, b, r') => PNext (PAfter (JStr ok b)) stack r'
+                | None => PDone None
+                end
+              else if c =? 45 then
+                match parse_number true r with Some (v, r') => PNext (PAfter v) stack r' | None => PDone None end
+              else if is_digit c then
+                match parse_number false (c :: r) with Some (v, r') => PNext (PAfter v) stack r' | None => PDone None end
+              else if c =? 91 then
+                match skip_ws r with
+                | 93 :: r' => PNext (PAfter (JArr [])) stack r'
+                | _ => PNext PValue (FArr [] :: stack) r
+                end
+              else if c =? 123 then
+                match skip_ws r with
+                | 125 :: r' => PNext (PAfter (JObj [])) stack r'
+                | 34 :: r' =>
+                    match parse_string r' with
+                    | Some (kok, k, r2) =>
+                        match skip_ws r2 with
+                        | 58 :: r3 => PNext PValue (FObj [] k kok :: stack) r3
+                        | _ => PDone None
+                        end
+                    | None => PDone None
+                    end
+                | _ => PDone None
+                end
+              else PDone None
+          end
+      | PAfter v =>
+          match stack with
+          | [] => PDone (Some (v, s))
+          | FArr acc :: stk =>
+              match skip_ws s with
+              | 44 :: r => PNext PValue (FArr (v :: acc) :: stk) r
+              | 93 :: r => PNext (PAfter (JArr (rev (v :: acc)))) stk r
+              | _ => PDone None
+              end
+          | FObj acc k kok :: stk =>
+              match skip_ws s with
+              | 44 :: r =>
+                  match skip_ws r with
+                  | 34 :: r' =>
+                      match parse_string r' with
+                      | Some (kok2, k2, r2) =>
+                          match skip_ws r2 with
+                          | 58 :: r3 => PNext PValue (FObj ((k, kok, v) :: acc) k2 kok2 :: stk) r3
+                          | _ => PDone None
+                          end
+                      | None => PDone None
+                      end
+                  | _ => PDone None
+                  end
+              | 125 :: r => PNext (PAfter (JObj (rev ((k, kok, v) :: acc)))) stk r
+              | _ => PDone None
+              end
+          end
+      end.
+
+Ltac break_goal :=
+  repeat match goal with
+         | |- context [match ?x with _ => _ end] =>
+             lazymatch x with
+             | context [match _ with _ => _ end] => fail
+             | _ => destruct x
+             end
+         end.
+
+Lemma parse_loop_step f st stack s :
+  parse_loop (S f) st stack s =
+  match pstep st stack s with PNext st' stack' s' => parse_loop f st' stack' s' | PDone r => r end.
+Proof. unfold pstep. cbn [parse_loop]. break_goal; reflexivity. Qed.
+
+Ltac break_inner H :=
+  repeat match type of H with
+         | context [match ?x with _ => _ end] =>
+             lazymatch x with
+             | context [match _ with _ => _ end] => fail
+             | _ => destruct x eqn:?; cbv beta iota in H; try discriminate H
+             end
+         end.
+
+Lemma skip_ws_len s : (length (skip_ws s) <= length s)%nat.
+Proof. induction s as [|c r IH]; [cbn; lia|]. cbn [skip_ws]. destruct (is_ws c); cbn [length] in *; lia. Qed.
+Lemma skip_ws_len_eq s t : skip_ws s = t -> (length t <= length s)%nat.
+Proof. intros <-. apply skip_ws_len. Qed.
+
+Lemma strip_prefix_len p s r : strip_prefix p s = Some r -> (length r <= length s)%nat.
+Proof.
+  unfold strip_prefix. destruct (starts_with p s); [|discriminate]. intro H. inversion H; subst.
+  rewrite skipn_length. lia.
+Qed.
+
+Lemma hex4_len s u r : hex4 s = Some (u, r) -> (length r + 4 = length s)%nat.
+Proof. unfold hex4. intro H. break_inner H. inversion H; subst. cbn [length]. lia. Qed.
+
+Lemma parse_str_body_len f : forall s ok acc ok' b r,
+  parse_str_body f s ok acc = Some (ok', b, r) -> (length r < length s)%nat.
+Proof.
+  induction f as [|f IH]; intros s ok acc ok' b r H; [discriminate|].
+  cbn [parse_str_body] in H. break_inner H;
+    repeat match goal with
+           | E : hex4 _ = Some _ |- _ => apply hex4_len in E
+           end;
+    try (inversion H; subst; cbn [length]; lia);
+    apply IH in H; cbn [length] in *; lia.
+Qed.
+
+Lemma parse_string_len s ok b r : parse_string s = Some (ok, b, r) -> (length r < length s)%nat.
+Proof.
+  unfold parse_string. destruct (parse_str_body (S (length s)) s true []) as [[[o b'] r']|] eqn:E; [|discriminate].
+  intro H. inversion H; subst. eapply parse_str_body_len. exact E.
+Qed.
+
+Lemma take_digits_len s : forall d t, take_digits s = (d, t) -> (length d + length t = length s)%nat.
+Proof.
+  induction s as [|c r IH]; intros d t H; cbn [take_digits] in H.
+  - inversion H. reflexivity.
+  - destruct (is_digit c).
+    + destruct (take_digits r) as [d' t'] eqn:E. inversion H; subst. specialize (IH _ _ eq_refl). cbn [length]. lia.
+    + inversion H; subst. reflexivity.
+Qed.
+
+Lemma parse_number_len neg s v r : parse_number neg s = Some (v, r) -> (length r < length s)%nat.
+Proof.
+  unfold parse_number. intro H.
+  destruct (take_digits s) as [ds t] eqn:E0. apply take_digits_len in E0.
+  break_inner H;
+    repeat match goal with
+           | E : take_digits _ = _ |- _ => apply take_digits_len in E
+           end;
+    inversion H; subst; cbn [length] in *; lia.
+Qed.
+
+Lemma pstep_consumes st stack s st' stack' s' :
+  pstep st stack s = PNext st' stack' s' ->
+  (length s' < length s)%nat /\ (length stack' <= S (length stack))%nat.
+Proof.
+  intro H. unfold pstep in H. break_inner H; inversion H; subst; clear H;
+    repeat match goal with
+           | E : skip_ws _ = _ |- _ => apply skip_ws_len_eq in E
+           | E : strip_prefix _ _ = Some _ |- _ => apply strip_prefix_len in E
+           | E : parse_string _ = Some _ |- _ => apply parse_string_len in E
+           | E : parse_number _ _ = Some _ |- _ => apply parse_number_len in E
+           end;
+    cbn [length] in *; lia.
+Qed.
+
+(* fuel: any two amounts above the input length give the same result *)
+Lemma parse_loop_fuel n : forall st stack s f1 f2,
+  (length s < n)%nat -> (n <= f1)%nat -> (n <= f2)%nat ->
+  parse_loop f1 st stack s = parse_loop f2 st stack s.
+Proof.
+  induction n as [|n IH]; intros st stack s f1 f2 Hs H1 H2; [lia|].
+  destruct f1 as [|f1]; [lia|]. destruct f2 as [|f2]; [lia|].
+  rewrite !parse_loop_step. destruct (pstep st stack s) as [st' stack' s'|r] eqn:E; [|reflexivity].
+  apply pstep_consumes in E as [E _]. apply IH; lia.
+Qed.
+
+Theorem fuel_never_exhausted s extra :
+  parse_loop (2 * length s + 4 + extra) PValue [] s = parse_loop (2 * length s + 4) PValue [] s.
+Proof. apply (parse_loop_fuel (S (length s))); lia. Qed.
+
+(* configurations met while parsing *)
+Inductive reach : pstate * list frame * bytes -> pstate * list frame * bytes -> Prop :=
+| reach_refl c : reach c c
+| reach_step st stack s st' stack' s' c :
+    pstep st stack s = PNext st' stack' s' -> reach (st', stack', s') c -> reach (st, stack, s) c.
+
+Lemma reach_bound c c' :
+  reach c c' ->
+  (length (snd (fst c')) + length (snd c') <= length (snd (fst c)) + length (snd c))%nat.
+Proof.
+  induction 1 as [c|st stack s st' stack' s' c E _ IH]; [lia|].
+  apply pstep_consumes in E as [E1 E2]. cbn [fst snd] in *. lia.
+Qed.
+
+Theorem stack_never_exceeds_input s st stack rest :
+  reach (PValue, [], s) (st, stack, rest) -> (length stack + length rest <= length s)%nat.
+Proof. intro H. apply reach_bound in H. cbn [fst snd length] in H. lia. Qed.
